@@ -193,8 +193,11 @@ impl PhoneticSuggestion {
         // Avoid including meta character suggestion twice, so check `term` is not equal to the
         // captured preceding characters
         if config.get_suggestion_include_english() && !typed_added && term != string.preceding() {
-            self.suggestions
-                .push(Rank::last_ranked(term.to_string(), 3));
+            // The typed text may already be there as its own transliteration (like `\`).
+            push_checked(
+                &mut self.suggestions,
+                Rank::last_ranked(term.to_string(), 3),
+            );
         }
 
         // Sort the suggestions.
